@@ -102,8 +102,12 @@ type siteInfo struct {
 	num                  int
 }
 
+// nstm / stmMembers: object streams of the last rendering and their largest member count
+var nstm, stmMembers int
+
 func render(doc writers.LDoc, lay writers.Layout, faults []fault) ([]byte, []siteInfo, int) {
 	var info []siteInfo
+	nstm, stmMembers = 0, 0
 	lay.ObjHook = func(o *writers.RawObj) {
 		text := o.Body
 		if o.Stream {
@@ -170,6 +174,41 @@ func render(doc writers.LDoc, lay writers.Layout, faults []fault) ([]byte, []sit
 					d := strings.ReplaceAll(o.Dict, "/Filter", "/XFilter")
 					d = strings.ReplaceAll(d, "/DecodeParms", "/XDecodeParms")
 					o.Dict = f.Value + " " + d // Dict is the inside of the dictionary
+				}
+			}
+		}
+	}
+	lay.ObjStmHook = func(st *writers.RawObjStm) {
+		nstm++
+		if len(st.Nums) > stmMembers {
+			stmMembers = len(st.Nums)
+		}
+		for _, f := range faults {
+			if f.Kind != "objstm" || f.Ordinal != st.Ordinal {
+				continue
+			}
+			// Value = "<field>=<text>": n, first, num (Site-th pair), off (Site-th pair),
+			// swap (offsets of pairs Site and Site+1 exchanged)
+			parts := strings.SplitN(f.Value, "=", 2)
+			if len(parts) != 2 {
+				continue
+			}
+			switch parts[0] {
+			case "n":
+				st.NText = parts[1]
+			case "first":
+				st.FirstText = parts[1]
+			case "num":
+				if f.Site < len(st.Nums) {
+					st.Nums[f.Site] = parts[1]
+				}
+			case "off":
+				if f.Site < len(st.Offsets) {
+					st.Offsets[f.Site] = parts[1]
+				}
+			case "swap":
+				if f.Site+1 < len(st.Offsets) {
+					st.Offsets[f.Site], st.Offsets[f.Site+1] = st.Offsets[f.Site+1], st.Offsets[f.Site]
 				}
 			}
 		}
@@ -384,6 +423,35 @@ func nestFaults(c *hx.Ctx, d int, seed uint64) {
 				continue
 			}
 			runPDF(c, kase{Format: "pdf", Doc: d, Seed: seed, Faults: []fault{{Kind: "nest", Ordinal: si.ordinal, Value: v}}, Layout: lay}, "p")
+		}
+	}
+}
+
+// objstmFaults: /N, /First and every header pair of every object stream of one document,
+// at the edges of their types and out of order. The document is laid out with object
+// streams whatever its drawn layout says.
+func objstmFaults(c *hx.Ctx, d int, seed uint64) {
+	doc, lay := docFor(seed)
+	lay.ObjStm, lay.XrefStream = true, true
+	render(doc, lay, nil)
+	ns, nm := nstm, stmMembers
+	edge := []string{"0", "-1", "1", "2147483648", "4294967296", "9223372036854775807", "-9223372036854775808", "99999999", "1.5", "(x)"}
+	for o := 0; o < ns; o++ {
+		var fs []fault
+		for _, v := range edge {
+			fs = append(fs, fault{Kind: "objstm", Ordinal: o, Value: "n=" + v}, fault{Kind: "objstm", Ordinal: o, Value: "first=" + v})
+		}
+		for site := 0; site < nm; site++ {
+			for _, v := range edge {
+				if site < 2 || c.Thorough() {
+					fs = append(fs, fault{Kind: "objstm", Ordinal: o, Site: site, Value: "num=" + v})
+				}
+				fs = append(fs, fault{Kind: "objstm", Ordinal: o, Site: site, Value: "off=" + v})
+			}
+			fs = append(fs, fault{Kind: "objstm", Ordinal: o, Site: site, Value: "swap=1"})
+		}
+		for _, f := range fs {
+			runPDF(c, kase{Format: "pdf", Doc: d, Seed: seed, Faults: []fault{f}, Layout: lay}, "p")
 		}
 	}
 }
@@ -707,7 +775,7 @@ func cmapExtremes(c *hx.Ctx, seed uint64, n int) {
 }
 
 func Run(c *hx.Ctx) {
-	c.Rep.Rule = "valid documents of all seven formats from the harness writers (PDF in random physical layouts, DOCX, ODT, XLSX, PPTX, EPUB, HTML) x every single fault of the catalogue at every site (numbers -> 0,-1,2^31,2^63-1; references -> self/root/missing; delimiters removed/added; objects/members dropped/duplicated; stream data flipped/truncated; objects and stream data replaced by 20 thousand / 6 million nested opening delimiters (balanced and not); every stream re-announced under every filter name/abbreviation/chain with edge decode parameters (full sweep on the first documents); /Length, xref entries, /W, /Prev, /Size, trailer; truncation at token boundaries; targeted field rewrites) + sampled double faults + byte mutation + hostile token soup into the raw parsers; every case runs 5-6 public entry points under a 10 s deadline and a 3 GiB heap limit; every case is non-trivial"
+	c.Rep.Rule = "valid documents of all seven formats from the harness writers (PDF in random physical layouts, DOCX, ODT, XLSX, PPTX, EPUB, HTML) x every single fault of the catalogue at every site (numbers -> 0,-1,2^31,2^63-1; references -> self/root/missing; delimiters removed/added; objects/members dropped/duplicated; stream data flipped/truncated; objects and stream data replaced by 20 thousand / 6 million nested opening delimiters (balanced and not); /N, /First and every header pair of every object stream at the edges of their types and out of order; every stream re-announced under every filter name/abbreviation/chain with edge decode parameters (full sweep on the first documents); /Length, xref entries, /W, /Prev, /Size, trailer; truncation at token boundaries; targeted field rewrites) + sampled double faults + byte mutation + hostile token soup into the raw parsers; every case runs 5-6 public entry points under a 10 s deadline and a 3 GiB heap limit; every case is non-trivial"
 	xrefStreamOps(c)
 	gridOps(c)
 	ptreeOps(c)
@@ -736,6 +804,9 @@ func Run(c *hx.Ctx) {
 	}
 	for d := 0; d < c.N(1, 6); d++ {
 		nestFaults(c, d, c.Seed*1000+uint64(d))
+	}
+	for d := 0; d < c.N(2, 10); d++ {
+		objstmFaults(c, d, c.Seed*1000+uint64(d))
 	}
 	xlsxFaults(c, c.Seed, c.N(250, 5000))
 	for _, f := range ZipFormats {
